@@ -267,7 +267,10 @@ def _map_fill_protocol(fm: FuncModel, mname: str, src: str, g) -> list[str]:
     if not marks:
         problems.append("copied non-minimal nodes are never marked expanded")
     for m in marks:
-        def atomize(e):
+        def atomize(e, _at=m.cfgn):
+            if isinstance(e, ast.Name):          # `is_min = scc_sd.node_is_minimal(i)` kept in a local
+                d_ = fm.deref(e, _at)
+                e = d_ if d_ is not None else e
             if isinstance(e, ast.Call) and callee_name(e) == "node_is_minimal" and e.args \
                     and text(e.func.value) == src and text(e.args[0]) == floop.target.id:
                 return logic.B("MIN")
@@ -287,6 +290,11 @@ def _map_fill_protocol(fm: FuncModel, mname: str, src: str, g) -> list[str]:
                 pol = True
                 while isinstance(t, ast.UnaryOp) and isinstance(t.op, ast.Not):
                     t, pol = t.operand, not pol
+                if isinstance(t, ast.Name):
+                    d_ = fm.deref(t, fm.cfg.nodes[next(iter(fm.cfg.g.predecessors(b.id)))])
+                    while isinstance(d_, ast.UnaryOp) and isinstance(d_.op, ast.Not):
+                        d_, pol = d_.operand, not pol
+                    t = d_ if d_ is not None else t
                 if isinstance(t, ast.Call) and callee_name(t) == "node_is_minimal" and (pol == b.pol):
                     min_true.append(b)
                 rhs_ = t.comparators[0] if isinstance(t, ast.Compare) and len(t.ops) == 1 else None
